@@ -14,7 +14,7 @@ ASSUMPTIONS = [
     'voxels: symbolic boxes have concrete extents (the membership test multiplies coordinates by extents); grids: symbolic bounding box at least 1e-3 wide',
 ]
 OUTSIDE = ['fully symbolic polygons with > 3 vertices (bilinear branch conditions: z3 unknown)', 'voxel grid sizes > 4', 'polygons with > 6 vertices', 'num_procs > 1 beyond the pool model (order-preserving map over copied arguments / results); scheduling and worker-private state are only exercised by the float replay']
-BOUNDS = {'quick': '2-D rays symbolic vs grid rays and fully symbolic pairs; 3-D constructed intersecting/skew/parallel pairs; triangles fully symbolic; 12 grid polygons; hull of 3 symbolic / 4-5 mixed points; voxel grids 2..3; find_ctrlpts support on curves p<=3 and surfaces; voxelize with num_procs in {2,3} and a non-default padding (worker-pool model)',
+BOUNDS = {'quick': '2-D rays symbolic vs grid rays and fully symbolic pairs; 3-D constructed intersecting/skew/parallel pairs; triangles fully symbolic; 12 grid polygons; hull of 3 symbolic / 4-5 mixed points; voxel grids 2..3; find_ctrlpts support on curves p<=3 and surfaces; voxelize with num_procs in {2,3} and a non-default padding (worker-pool model); small rays (symbolic size >= 1e-4); flat plates',
           'thorough': 'more grid polygons (all simple 4-gons on a 3x3 grid), hull with 6 points, voxel grids to 4'}
 
 
